@@ -47,7 +47,7 @@ def h_eq(lname, rkind, n, m):
                 return False
             if not K.check(r4.value == r2.value, '!= is not symmetric'):
                 return False
-        elif rkind.startswith('str:') or rkind == 'bytes':
+        elif rkind.startswith('str:') or rkind in ('bytes', 'bytearray'):
             r3 = call(lambda: a.__eq__(b))
             if not K.check(r3.ok and (r3.value == exp), 'a.__eq__(promotable)'):
                 return False
@@ -207,7 +207,9 @@ def conditions(tier):
                 conds.append(Cond(f'C13.eq[{l},{r},n={n}]', h_eq(l, r, n, n), f'all pairs of {n}-bit contents, all stream positions', D_EQ, {'n': n}, timeout=T))
             for (n, m) in ([(0, 1), (8, 9)] if q else [(0, 1), (1, 0), (8, 9), (9, 8), (64, 65)]):
                 conds.append(Cond(f'C13.eq[{l},{r},n={n},m={m}]', h_eq(l, r, n, m), f'all contents, lengths {n} and {m}', D_EQ, {'n': n, 'm': m}, timeout=T))
-        for n, m in [(8, 8), (16, 16), (8, 16), (0, 8)]:
+        for n, m in [(1, 8), (7, 8), (9, 16)]:
+            conds.append(Cond(f'C13.eq[{l},bytearray,n={n},m={m}]', h_eq(l, 'bytearray', n, m), f'all {n}-bit contents x all {m // 8}-byte bytearrays', D_EQ, {'n': n}, timeout=T))
+        for n, m in [(8, 8), (16, 16), (8, 16), (0, 8), (1, 8), (5, 8), (7, 8), (9, 16), (15, 16)]:
             conds.append(Cond(f'C13.eq[{l},bytes,n={n},m={m}]', h_eq(l, 'bytes', n, m), f'all {n}-bit contents x all {m // 8}-byte values', D_EQ, {'n': n}, timeout=T))
         for n, m in [(3, 3), (3, 2), (0, 0)]:
             conds.append(Cond(f'C13.eq[{l},bools,n={n},m={m}]', h_eq(l, 'bools', n, m), f'all {n}-bit contents x all bool lists of length {m}', D_EQ, {'n': n}, timeout=T))
